@@ -52,7 +52,38 @@ func (e Event) String() string {
 	}
 }
 
-var contentNames = []string{"x", "y", "$(V)", "a-$(V)-b", "gz(x)", "gz($(V))", "empty"}
+var contentNames = []string{"x", "y", "$(V)", "a-$(V)-b", "gz(x)", "gz($(V))", "empty",
+	// environment VALUE dimension: E is SET to the empty string, W is set to a value with leading/trailing blanks and
+	// regexp-template metacharacters; V is "1" or unset (per configuration) as before.
+	"$(E)", "a-$(E)-b", "$(E)$(V)", "gz(k: $(E))", "$(W)", "$(V)$(E)$(W)"}
+
+// wValue is the value of variable W: it must be inserted byte for byte (no trimming, no template expansion).
+const wValue = " $1 ${0} $(Q) "
+
+// env is the environment of one shard: three variables with shard-unique names (the process environment is global
+// and the shards run in parallel).
+type env struct {
+	V, E, W string // variable names
+	VUnset  bool   // V is unset (otherwise "1"); E is always set to "", W always to wValue
+}
+
+func envOf(ci int) env {
+	return env{V: fmt.Sprintf("VC47_%d", ci), E: fmt.Sprintf("VC47E_%d", ci), W: fmt.Sprintf("VC47W_%d", ci), VUnset: configs()[ci].EnvUnset}
+}
+
+// install puts the shard's variables into the process environment.
+func (e env) install() {
+	if e.VUnset {
+		os.Unsetenv(e.V)
+	} else {
+		os.Setenv(e.V, "1")
+	}
+	os.Setenv(e.E, "")
+	os.Setenv(e.W, wValue)
+	if v, ok := os.LookupEnv(e.E); !ok || v != "" {
+		panic("HARNESS-ERROR: could not set a variable to the empty string")
+	}
+}
 
 // Config is one reloader configuration (one shard of the search).
 type Config struct {
@@ -61,7 +92,8 @@ type Config struct {
 	CfgOut   bool // with output file
 	Dirs     int  // number of cfgDirs (d1, d2), each with an output dir
 	Watched  bool // one watched dir (w), searched recursively
-	EnvUnset bool // the variable is unset and TolerateEnvVarExpansionErrors is on; otherwise V=1
+	EnvUnset bool // the variable V is unset and TolerateEnvVarExpansionErrors is on; otherwise V=1
+	Tolerate bool // TolerateEnvVarExpansionErrors on although every referenced variable is set
 	Events   []Event
 }
 
@@ -104,6 +136,24 @@ func configs() []Config {
 			Events: cat(writes("d1/a", 0, 1), writes("d2/a", 0, 1), rm("d1/a"), rm("d2/a"), applies())},
 		{Name: "watched-only", Watched: true,
 			Events: cat(writes("w/f", 0, 1), writes("w/sub/f", 0, 1), rm("w/f"), rm("w/sub/f"), applies())},
+		// ---- environment VALUE dimension (appended: indices of the shards above stay valid for old replays) ----
+		// a variable SET to the empty string / to a value with blanks and metacharacters, tolerance off and on,
+		// referenced from the main config file and from files of a config directory, alone and next to a non-empty
+		// or an unset(+tolerated) variable.
+		{Name: "cfg+out,env-empty", CfgFile: true, CfgOut: true,
+			Events: cat(writes("cfg", 0, 7, 8, 9, 10, 11, 12), rm("cfg"), applies())},
+		{Name: "cfg+out,env-empty,tolerant", CfgFile: true, CfgOut: true, Tolerate: true,
+			Events: cat(writes("cfg", 0, 7, 9, 10, 11), rm("cfg"), applies())},
+		{Name: "cfg+out,env-empty,V-unset-tolerated", CfgFile: true, CfgOut: true, EnvUnset: true,
+			Events: cat(writes("cfg", 0, 7, 9, 12), rm("cfg"), applies())},
+		{Name: "dir,env-empty", Dirs: 1,
+			Events: cat(writes("d1/a", 0, 7, 9, 11), writes("d1/b", 0, 7), rm("d1/a"), rm("d1/b"), applies())},
+		{Name: "dir,env-empty,tolerant", Dirs: 1, Tolerate: true,
+			Events: cat(writes("d1/a", 0, 7, 10), writes("d1/b", 0, 8), rm("d1/a"), rm("d1/b"), applies())},
+		{Name: "dir,env-empty,V-unset-tolerated", Dirs: 1, EnvUnset: true,
+			Events: cat(writes("d1/a", 0, 7, 9), writes("d1/b", 0, 9), rm("d1/a"), rm("d1/b"), applies())},
+		{Name: "cfg+dir,env-empty", CfgFile: true, CfgOut: true, Dirs: 1,
+			Events: cat(writes("cfg", 0, 7, 9), writes("d1/a", 0, 7), rm("d1/a"), applies())},
 	}
 }
 
@@ -152,13 +202,26 @@ func gz(s string) string {
 }
 
 // raw file bytes and expected output bytes of a content symbol.
-func render(c int, envName string, envUnset bool) (raw, out string) {
-	ref := "$(" + envName + ")"
+func render(c int, e env) (raw, out string) {
+	ref := "$(" + e.V + ")"
 	val := "1"
-	if envUnset {
+	if e.VUnset {
 		val = ref // tolerated: left as is
 	}
+	eref, wref := "$("+e.E+")", "$("+e.W+")"
 	switch c {
+	case 7:
+		return eref, ""
+	case 8:
+		return "a-" + eref + "-b", "a--b"
+	case 9:
+		return eref + ref, val
+	case 10:
+		return gz("k: " + eref), "k: "
+	case 11:
+		return wref, wValue
+	case 12:
+		return ref + eref + wref, val + wValue
 	case 0:
 		return "x", "x"
 	case 1:
@@ -171,8 +234,10 @@ func render(c int, envName string, envUnset bool) (raw, out string) {
 		return gz("x"), "x"
 	case 5:
 		return gz(ref), val
-	default:
+	case 6:
 		return "", ""
+	default:
+		panic(fmt.Sprintf("HARNESS-ERROR: unknown content symbol %d", c))
 	}
 }
 
@@ -185,7 +250,7 @@ type model struct {
 	pendingFail bool   // a reload request failed after the last successful one
 }
 
-func (m *model) descriptors(envName string, envUnset bool) (raw, out string) {
+func (m *model) descriptors(e env) (raw, out string) {
 	names := make([]string, 0, len(m.inputs))
 	for n := range m.inputs {
 		names = append(names, n)
@@ -193,7 +258,7 @@ func (m *model) descriptors(envName string, envUnset bool) (raw, out string) {
 	sort.Strings(names)
 	var rb, ob strings.Builder
 	for _, n := range names {
-		r, o := render(m.inputs[n], envName, envUnset)
+		r, o := render(m.inputs[n], e)
 		fmt.Fprintf(&rb, "%s=%q;", n, r)
 		fmt.Fprintf(&ob, "%s=%q;", n, o)
 	}
@@ -221,7 +286,7 @@ type runResult struct {
 }
 
 // run replays the history on a fresh Reloader in the wiped directory root. Must be called inside a synctest bubble.
-func run(r *vlib.R, c Case, root, envName string, report bool) runResult {
+func run(r *vlib.R, c Case, root string, e env, report bool) runResult {
 	cf := configs()[c.Cfg]
 	// wipe: every directory the configuration uses exists and holds no file (same paths for every replay, so the
 	// path-dependent hashes the reloader keeps are comparable across replays of one shard).
@@ -257,7 +322,7 @@ func run(r *vlib.R, c Case, root, envName string, report bool) runResult {
 		return filepath.Join(root, logical)
 	}
 	u, _ := url.Parse("http://127.0.0.1:1/-/reload")
-	opts := &reloader.Options{ReloadURL: u, WatchInterval: watchInterval, RetryInterval: retryInterval, TolerateEnvVarExpansionErrors: cf.EnvUnset}
+	opts := &reloader.Options{ReloadURL: u, WatchInterval: watchInterval, RetryInterval: retryInterval, TolerateEnvVarExpansionErrors: cf.EnvUnset || cf.Tolerate}
 	if cf.CfgFile {
 		opts.CfgFile = phys("cfg")
 		if cf.CfgOut {
@@ -276,7 +341,7 @@ func run(r *vlib.R, c Case, root, envName string, report bool) runResult {
 
 	m := &model{inputs: map[string]int{}}
 	write := func(logical string, content int) {
-		raw, _ := render(content, envName, cf.EnvUnset)
+		raw, _ := render(content, e)
 		if err := os.WriteFile(phys(logical), []byte(raw), 0o644); err != nil {
 			r.T.Fatalf("HARNESS-ERROR write: %v", err)
 		}
@@ -309,11 +374,15 @@ func run(r *vlib.R, c Case, root, envName string, report bool) runResult {
 		case "apply":
 			*ep = endpoint{mode: ev.Mode}
 			ctx, cancel := context.WithTimeout(context.Background(), watchInterval)
-			err := rl.VerifApply(ctx)
+			err, panicked := safeApply(rl, ctx)
 			cancel()
+			if panicked != "" {
+				violation("apply-panics", "apply panicked: "+panicked)
+				return runResult{key: "panic:" + panicked}
+			}
 			_, cfgPresent := m.inputs["cfg"]
 			valid := !cf.CfgFile || cfgPresent
-			raw, out := m.descriptors(envName, cf.EnvUnset)
+			raw, out := m.descriptors(e)
 			// ---- oracle (only where the statement speaks: all configured inputs exist) ----
 			if valid && last {
 				if err != nil {
@@ -321,7 +390,7 @@ func run(r *vlib.R, c Case, root, envName string, report bool) runResult {
 				} else {
 					// outputs equal inputs with the environment substituted; outputs of vanished inputs are gone.
 					if cf.CfgFile && cf.CfgOut {
-						_, want := render(m.inputs["cfg"], envName, cf.EnvUnset)
+						_, want := render(m.inputs["cfg"], e)
 						got, rerr := os.ReadFile(opts.CfgOutputFile)
 						if rerr != nil {
 							violation("output-missing", fmt.Sprintf("config output file unreadable: %v", rerr))
@@ -335,7 +404,7 @@ func run(r *vlib.R, c Case, root, envName string, report bool) runResult {
 						want := map[string]string{}
 						for n, cs := range m.inputs {
 							if strings.HasPrefix(n, prefix) {
-								_, o := render(cs, envName, cf.EnvUnset)
+								_, o := render(cs, e)
 								want[strings.TrimPrefix(n, prefix)] = o
 							}
 						}
@@ -382,7 +451,7 @@ func run(r *vlib.R, c Case, root, envName string, report bool) runResult {
 
 	// state key: inputs, outputs, carried-over reloader fields, model memory.
 	var kb strings.Builder
-	raw, _ := m.descriptors(envName, cf.EnvUnset)
+	raw, _ := m.descriptors(e)
 	kb.WriteString(raw)
 	kb.WriteString("|out:")
 	if b, err := os.ReadFile(filepath.Join(root, "out", "cfg.yaml")); err == nil {
@@ -403,6 +472,16 @@ func run(r *vlib.R, c Case, root, envName string, report bool) runResult {
 	kb.WriteString(rl.VerifInternalState())
 	fmt.Fprintf(&kb, "|model:%v,%q,%v", m.haveSuccess, m.lastRaw, m.pendingFail)
 	return runResult{key: kb.String()}
+}
+
+// safeApply runs one apply round and turns a panic of the code under test into a value.
+func safeApply(rl *reloader.Reloader, ctx context.Context) (err error, panicked string) {
+	defer func() {
+		if p := recover(); p != nil {
+			panicked = fmt.Sprint(p)
+		}
+	}()
+	return rl.VerifApply(ctx), ""
 }
 
 // interesting reports whether the history exercises the property non-trivially: it contains an apply after a
@@ -468,12 +547,8 @@ func noop(cf Config, hist []int, ei int) bool {
 
 func search(t *testing.T, r *vlib.R, ci int, root string, depth int) {
 	cf := configs()[ci]
-	envName := fmt.Sprintf("VC47_%d", ci)
-	if cf.EnvUnset {
-		os.Unsetenv(envName)
-	} else {
-		os.Setenv(envName, "1")
-	}
+	envName := envOf(ci)
+	envName.install()
 	type node struct{ hist []int }
 	started := time.Now()
 	var nTrans, nStates int64 = 0, 1
@@ -526,10 +601,13 @@ func TestCheck(t *testing.T) {
 	r := vlib.New(t, "C47")
 	defer r.Finish()
 	r.Rule("explicit-state BFS over histories of events {write file with content in {x,y,$(V),a-$(V)-b,gz(x),gz($(V)),empty}, remove file, apply with reload endpoint ok / failing once / failing until the " +
-		"watch interval expires} for 8 reloader configurations (config file with/without output, env set / unset+tolerated, one or two config dirs with output dirs, watched dirs, all three together); " +
+		"watch interval expires} for 8 reloader configurations (config file with/without output, env set / unset+tolerated, one or two config dirs with output dirs, watched dirs, all three together) " +
+		"plus 7 configurations of the environment VALUE dimension: contents {$(E), a-$(E)-b, $(E)$(V), gz(k: $(E)), $(W), $(V)$(E)$(W)} where E is SET to the empty string and W to a value with blanks and '$' metacharacters, " +
+		"in the main config file and in config-dir files, with TolerateEnvVarExpansionErrors off / on / on with V unset; " +
 		"every transition replays its history on a fresh Reloader and runs the real apply under a virtual clock. Non-trivial = distinct histories with an apply after a failed reload or after an edit that follows an earlier apply")
 	r.Assume("apply rounds are invoked directly (what Watch does on each notification or watch-interval tick); fsnotify delivery and the delay timer are not part of the search",
 		"the environment is fixed for the life of a reloader (a process cannot have its environment changed from outside); unset variables are only explored with TolerateEnvVarExpansionErrors",
+		"a variable that is set (os.LookupEnv ok) is substituted by its value byte for byte, also when the value is the empty string or contains '$', blanks or text that looks like a reference (one substitution pass), with tolerance off and on",
 		"reload decisions: a request is required when both the raw and the expanded content differ from the last successfully reloaded content, forbidden when both are equal and no request failed since; "+
 			"the first round of a fresh reloader and a round after a failed request with content back at the last successful one may go either way",
 		"the oracle is evaluated only in states where every configured input exists (a missing main config file makes apply fail, which the statement does not cover)")
@@ -539,12 +617,8 @@ func TestCheck(t *testing.T) {
 	var rc Case
 	if r.ReplayCase(&rc) {
 		synctest.Test(t, func(t *testing.T) {
-			envName := fmt.Sprintf("VC47_%d", rc.Cfg)
-			if configs()[rc.Cfg].EnvUnset {
-				os.Unsetenv(envName)
-			} else {
-				os.Setenv(envName, "1")
-			}
+			envName := envOf(rc.Cfg)
+			envName.install()
 			// evaluate the oracle at every apply of the history (prefix by prefix)
 			for i := 0; i <= len(rc.Hist); i++ {
 				run(r, Case{Cfg: rc.Cfg, Hist: rc.Hist[:i]}, filepath.Join(base, "replay"), envName, true)
